@@ -66,6 +66,9 @@ func (s *Scanner) PostProcessDefinitionRegistry(registry container.DefinitionReg
 			if other.Name() != "" {
 				atomic.AddInt64(&s.named, 1)
 			}
+			// a census of what has been found on the OTHER components so far (scanners run one after another, each
+			// over all components in parallel: nobody writes definitions while this scanner reads them)
+			atomic.AddInt64(&s.named, int64(len(other.GetAllProperties())))
 		}
 	}
 	if s.reject[name] {
@@ -89,6 +92,8 @@ func (c *Closer) Close() error {
 	}
 	return nil
 }
+
+var freshTag int64
 
 func TestRaces(t *testing.T) {
 	kit.Rec.Rule(rule)
@@ -122,8 +127,13 @@ func TestRaces(t *testing.T) {
 		}
 		// a few components that only carry configuration points (value / prop / prefix tags of every flavour): the tag
 		// scanners visit them in parallel with everything else
+		// ... all of them with one more point whose tag TEXT (value and arguments) no component of this process has
+		// carried before
+		fresh := atomic.AddInt64(&freshTag, 1)
 		for i := rapid.IntRange(0, 4).Draw(t, "ncfgcomps"); i > 0; i-- {
 			var fs []reflect.StructField
+			fs = append(fs, reflect.StructField{Name: "Fresh", Type: reflect.TypeOf(""), Tag: reflect.StructTag(fmt.Sprintf(`value:"lit%d,note=n%d x"`, fresh, fresh))},
+				reflect.StructField{Name: "Fresh2", Type: reflect.TypeOf(""), Tag: reflect.StructTag(fmt.Sprintf(`value:"${c20.absent.k%d:d},note=n%d"`, fresh, fresh))})
 			for j := 0; j < 6; j++ {
 				k := rapid.SampledFrom(kit.DecoyKinds()).Draw(t, "cfgfield")
 				fs = append(fs, reflect.StructField{Name: fmt.Sprintf("C%d", j), Type: k.Type, Tag: reflect.StructTag(k.Tag)})
